@@ -61,11 +61,23 @@ def make_conf(conf):
     return ProxyConfiguration(conf, conf_base_dir='/simfs/conf')
 
 
+class _NullErrors(object):
+    """wsgi.errors sink: the application logs the traceback of every 500 it answers there"""
+    def write(self, s):
+        pass
+
+    def writelines(self, seq):
+        pass
+
+    def flush(self):
+        pass
+
+
 def wsgi_get(app, path, query='', headers=None):
     environ = {
         'REQUEST_METHOD': 'GET', 'SCRIPT_NAME': '', 'PATH_INFO': path, 'QUERY_STRING': query,
         'SERVER_NAME': 'localhost', 'SERVER_PORT': '80', 'HTTP_HOST': 'localhost', 'SERVER_PROTOCOL': 'HTTP/1.1',
-        'wsgi.version': (1, 0), 'wsgi.url_scheme': 'http', 'wsgi.input': BytesIO(b''), 'wsgi.errors': sys.stderr,
+        'wsgi.version': (1, 0), 'wsgi.url_scheme': 'http', 'wsgi.input': BytesIO(b''), 'wsgi.errors': _NullErrors(),
         'wsgi.multithread': True, 'wsgi.multiprocess': True, 'wsgi.run_once': False,
     }
     for k, v in (headers or {}).items():
